@@ -13,7 +13,7 @@ CLAUSE_PROPERTY = {
     "C01_Exact": "C01", "C01_OnlyAdded": "C01",
     "C03_Notes": "C03", "C03_Blame": "C03",
     "C05_WellFormed": "C05", "C02_Carried": "C02", "C14_Stutter": "C14",
-    "C11_NothingLost": "C11", "C06_Same": "C06",
+    "C11_NothingLost": "C11", "C06_Same": "C06", "C07_TwoOutcomes": "C07", "C07_NextWorks": "C07",
     "C10_Converged": "C10", "C10_NoForeign": "C10", "C10_NeverRemoved": "C10",
     "C08_NoTranscript": "C08", "C08_Masked": "C08", "C09_Overlay": "C09", "C09_Formats": "C09", "C19_Stats": "C19",
     "Twin_Obs": "C15", "Twin_Exact": "C15", "Twin_Blame": "C15",
@@ -42,6 +42,12 @@ def classify(pid, clauses, run, known):
             # a finding may instead be delimited by a narrower TLA+ clause: the failure is the known one only
             # if that clause still HOLDS at the same step
             if k.get("when_holds") and (step, k["when_holds"]) not in run["viol"]:
+                # optionally narrowed to the call sites at which the fault was observed to have this effect
+                if k.get("sites") is not None:
+                    ev = run["events"][step] if step < len(run["events"]) else {}
+                    if ev.get("kind") not in k.get("any_site_for_kind", []) and \
+                            ev.get("obs", {}).get("site") not in k["sites"]:
+                        continue
                 kf = k
                 break
         if kf:
